@@ -137,6 +137,10 @@ func (g Gateway) RegisterSwamp(_ context.Context, in *hydrapb.RegisterSwampReque
 		return nil, status.Error(codes.InvalidArgument, "SwampPattern cannot be empty")
 	}
 
+	if err := validateSwampNameFormat(in.SwampPattern); err != nil {
+		return nil, err
+	}
+
 	// try to create the pattern from the input string
 	swampPattern := name.Load(in.SwampPattern)
 
@@ -180,6 +184,10 @@ func (g Gateway) DeRegisterSwamp(_ context.Context, in *hydrapb.DeRegisterSwampR
 	if in.SwampPattern == "" {
 		// return with grpc error message
 		return nil, status.Error(codes.InvalidArgument, "SwampPattern cannot be empty")
+	}
+
+	if err := validateSwampNameFormat(in.SwampPattern); err != nil {
+		return nil, err
 	}
 
 	// try to create the pattern from the input string
@@ -2944,6 +2952,18 @@ func handlePanic() {
 	}
 }
 
+// validateSwampNameFormat rejects names that do not have the
+// sanctuary/realm/swamp shape. name.Load indexes the three parts without
+// checking, so a shorter name made every handler panic; the panic was
+// recovered into an empty reply that looked like a success to the client.
+func validateSwampNameFormat(inputSwampName string) error {
+	parts := strings.Split(inputSwampName, "/")
+	if len(parts) < 3 || parts[0] == "" || parts[1] == "" || parts[2] == "" {
+		return status.Error(codes.InvalidArgument, "SwampName must have the form sanctuary/realm/swamp")
+	}
+	return nil
+}
+
 // checkSwampName check if the swamp name is valid and exist or not.
 // The function will return a grpc error message if the swamp name is invalid or does not exist.
 func checkSwampName(zeusInterface zeus.Zeus, islandID uint64, inputSwampName string, checkExist bool) (name.Name, error) {
@@ -2952,6 +2972,9 @@ func checkSwampName(zeusInterface zeus.Zeus, islandID uint64, inputSwampName str
 	if inputSwampName == "" {
 		// return with grpc error message
 		return nil, status.Error(codes.InvalidArgument, "SwampName cannot be empty")
+	}
+	if err := validateSwampNameFormat(inputSwampName); err != nil {
+		return nil, err
 	}
 	swampName := name.Load(inputSwampName)
 
